@@ -5,6 +5,7 @@ import HdVerif.Generated.T8c
 import HdVerif.Generated.T8d
 import HdVerif.Generated.T8e
 import HdVerif.Generated.T8f
+import HdVerif.Generated.T8g
 /-! C02: the read side of `highdicom.seg.Segmentation` (`seg/sop.py`).
 
 `Segmentation._get_pixels_by_seg_frame` as written — the validation head, the LABELMAP branch (`need_remap`,
@@ -58,9 +59,15 @@ def castVal : DType → Int → Int
 
 def castFrame (d : DType) (f : List Int) : List Int := f.map (castVal d)
 
-/-- `_check_numpy_value_representation` -/
+/-- `numpy.dtype.kind` -/
+def DType.kind : DType → String
+  | .u8 => "u" | .u16 => "u" | .u32 => "u" | .u64 => "u" | .i8 => "i" | .i16 => "i" | .i32 => "i" | .i64 => "i"
+  | .f32 => "f" | .f64 => "f" | .bool => "b"
+
+/-- `_check_numpy_value_representation`: the dispatch on the kind and the comparison are the translated function
+(`Gen.checkReprT`, T8g); `np.finfo(d).max` / `np.iinfo(d).max` are supplied from the table of maxima -/
 def checkRepr (maxVal : Int) (d : DType) : Except ErrKind Unit :=
-  if maxVal > d.maxVal then .error .value else .ok ()
+  (checkReprT maxVal d.kind d.maxVal d.maxVal).map fun _ => ()
 
 inductive SegType | binary | fractional | labelmap
   deriving DecidableEq, Repr, Inhabited
